@@ -31,9 +31,16 @@ class S(dict):
         return id(self)
 
 
+class C(tuple):
+    """container whose elements have the (structured) value self[0]"""
+    __slots__ = ()
+
+
 def flat(v):
     if isinstance(v, frozenset):
         return v
+    if isinstance(v, C):
+        return flat(v[0])
     if isinstance(v, T):
         r = EMPTY
         for x in v:
@@ -58,6 +65,8 @@ def join(a, b):
         return T(join(x, y) for x, y in zip(a, b))
     if isinstance(a, S) and isinstance(b, S) and set(a) == set(b):
         return S((k, join(a[k], b[k])) for k in a)
+    if isinstance(a, C) and isinstance(b, C):
+        return C((join(a[0], b[0]),))
     return flat(a) | flat(b)
 
 
@@ -71,6 +80,8 @@ def project(v, field, adt=None, maxdepth=8):
         if field.isdigit() and int(field) < len(v):
             return v[int(field)]
         v = flat(v)
+    if isinstance(v, C):
+        v = flat(v)
     out = set(fa)
     for a in v:
         if a.startswith('p:'):
@@ -83,6 +94,29 @@ def project(v, field, adt=None, maxdepth=8):
     return frozenset(out)
 
 
+def elem(v, maxn=4):
+    """value of an element of a collection / iterator value: access paths get a [] marker"""
+    if isinstance(v, C):
+        return v[0] if v[0] is not None else EMPTY
+    if isinstance(v, T):
+        return T(elem(x, maxn) for x in v)
+    if isinstance(v, S):
+        v = flat(v)
+    if v is None:
+        return EMPTY
+    out = set()
+    for a in v:
+        if a.startswith('p:') and a.count('[]') < maxn:
+            out.add(a + '[]')
+        else:
+            out.add(a)
+    return frozenset(out)
+
+
+LEN_METHODS = {'len', 'is_some', 'is_none', 'is_empty', 'height'}
+ELEM_METHODS = {'next', 'first', 'last', 'get', 'get_mut', 'pop', 'nth', 'peek', 'first_mut', 'last_mut', 'get_unchecked'}
+
+
 def join_keep(v, extra):
     """add atoms to a value, keeping structure"""
     if not extra:
@@ -91,6 +125,8 @@ def join_keep(v, extra):
         return T(join_keep(x, extra) for x in v)
     if isinstance(v, S):
         return S((k, join_keep(x, extra)) for k, x in v.items())
+    if isinstance(v, C):
+        return C((join_keep(v[0], extra),))
     return v | extra
 
 
@@ -101,7 +137,7 @@ ZIPS = {'zip', 'zip_eq'}
 
 
 class Event:
-    __slots__ = ('kind', 'node', 'callee', 'decl', 'recv', 'args', 'val', 'ctx', 'stack', 'fn', 'tried', 'extra')
+    __slots__ = ('kind', 'node', 'callee', 'decl', 'recv', 'args', 'val', 'ctx', 'stack', 'fn', 'tried', 'extra', 'pins')
 
     def __init__(self, kind, node, fn, ctx, stack, callee=None, decl=None, recv=None, args=None, val=None, tried=False, extra=None):
         self.kind = kind
@@ -116,6 +152,7 @@ class Event:
         self.val = val
         self.tried = tried
         self.extra = extra
+        self.pins = EMPTY
 
     @property
     def q(self):
@@ -173,6 +210,15 @@ def diverges_with_err(n):
     return False
 
 
+def tail_is_err(n):
+    """block / expression whose value is directly an Err(..) constructor call"""
+    while isinstance(n, dict) and n.get('k') == 'Block':
+        if 'e' not in n:
+            return False
+        n = n['e']
+    return isinstance(n, dict) and is_err_ctor(n)
+
+
 def panics(n):
     for x in walk_noclosure(n):
         if x.get('k') == 'Call':
@@ -227,6 +273,42 @@ class Flow:
         self.events.append(Event('ret', fn.body, fn, ctx, stack, val=r))
         return r
 
+    # ------------------------------------------------------------------ length provenance
+    def quiet(self, fr, n, ctx, stack):
+        saved = self.events
+        self.events = []
+        try:
+            return self.ev(fr, n, ctx, stack)
+        finally:
+            self.events = saved
+
+    def len_paths(self, fr, n, ctx, stack, strict=False):
+        """access paths whose len()/is_some()/is_none()/height() occurs in this expression (directly, or through a
+        local bound to such an expression).  strict: only through arithmetic / casts / refs."""
+        out = set()
+        todo = [n]
+        while todo:
+            x = todo.pop()
+            if not isinstance(x, dict):
+                continue
+            k = x.get('k')
+            if k == 'MCall' and x.get('n') in LEN_METHODS:
+                rv = self.quiet(fr, x['r'], ctx, stack)
+                for a in flat(rv):
+                    if a.startswith('p:'):
+                        out.add(a)
+                continue
+            if k == 'Local':
+                out |= fr.lens.get(x['id'], EMPTY)
+                continue
+            if strict and k not in ('Bin', 'Un', 'Cast', 'Ref', 'Block', 'Lit', 'Tup'):
+                continue
+            if k == 'Closure':
+                todo.append(x['b'])
+                continue
+            todo.extend(kids(x))
+        return frozenset(out)
+
     # ------------------------------------------------------------------ patterns
     def bind(self, fr, p, v, weak=False):
         k = p.get('k')
@@ -249,8 +331,12 @@ class Flow:
                     self.bind(fr, q, x, weak)
             else:
                 fv = flat(v)
-                for q in p['a']:
-                    self.bind(fr, q, fv, weak)
+                if p.get('dd', -1) < 0:
+                    for i, q in enumerate(p['a']):
+                        self.bind(fr, q, project(fv, str(i)), weak)
+                else:
+                    for q in p['a']:
+                        self.bind(fr, q, fv, weak)
         elif k == 'PTupleStruct':
             # Some(x) / Ok(x) / Variant(a, b)
             if len(p['a']) == 1:
@@ -344,6 +430,10 @@ class Flow:
                 self.events.append(Event('guard', n, fr.fn, ctx, stack, val=v))
             self.ev(fr, n['els'], ctx, stack)
         self.bind(fr, n['p'], v)
+        if 'i' in n and n['p'].get('k') == 'Bind':
+            lp = self.len_paths(fr, n['i'], ctx, stack, strict=True)
+            if lp:
+                fr.lens[n['p']['id']] = lp
         names = [b['n'] for b in pat_binds(n['p'])]
         self.events.append(Event('let', n, fr.fn, ctx, stack, val=v, extra=names))
         return EMPTY
@@ -375,7 +465,10 @@ class Flow:
         i = self.ev(fr, n['i'], ctx, stack)
         if self.track_idx:
             self.events.append(Event('index', n, fr.fn, ctx, stack, recv=b, args=[i]))
-        return flat(b) | flat(i)
+        ri = n['i']
+        if ri.get('k') == 'Struct' and 'Range' in ri.get('d', ''):
+            return flat(b) | flat(i)   # sub-slice keeps the collection path
+        return join_keep(elem(b), flat(i))
 
     def ev_Ref(self, fr, n, ctx, stack):
         return self.ev(fr, n['e'], ctx, stack)
@@ -416,10 +509,12 @@ class Flow:
         c = self.ev(fr, n['c'], ctx, stack)
         cf = flat(c)
         th, el = n['th'], n.get('el')
-        g_th = diverges_with_err(th)
-        g_el = el is not None and diverges_with_err(el)
+        g_th = diverges_with_err(th) or tail_is_err(th)
+        g_el = el is not None and (diverges_with_err(el) or tail_is_err(el))
         if g_th or g_el:
-            self.events.append(Event('guard', n, fr.fn, ctx, stack, val=cf, extra='ensure' if in_macro(n, 'ensure') else 'if'))
+            ge = Event('guard', n, fr.fn, ctx, stack, val=cf, extra='ensure' if in_macro(n, 'ensure') else 'if')
+            ge.pins = self.len_paths(fr, n['c'], ctx, stack)
+            self.events.append(ge)
         elif panics(th) or (el is not None and panics(el)):
             mac = macro_of(n) or 'panic'
             self.events.append(Event('assert', n, fr.fn, ctx, stack, val=cf, extra=mac))
@@ -438,18 +533,27 @@ class Flow:
         single = len(n['arms']) == 1
         for a in n['arms']:
             self.bind(fr, a['p'], s)
+            if single and n['e'].get('k') == 'Tup' and a['p'].get('k') == 'PTuple' and len(n['e']['a']) == len(a['p']['a']):
+                for sub, pe in zip(a['p']['a'], n['e']['a']):
+                    lp = self.len_paths(fr, pe, ctx, stack)
+                    if lp:
+                        for b in pat_binds(sub):
+                            fr.lens[b['id']] = lp
             c1 = ctx if single else ctx + (('if', sf, n, a),)
             if 'g' in a:
                 g = flat(self.ev(fr, a['g'], c1, stack))
                 c1 = c1 + (('if', g, n, a),)
             if not single and diverges_with_err(a['b']) and not any(diverges_with_err(b['b']) for b in n['arms'] if b is not a):
-                self.events.append(Event('guard', n, fr.fn, ctx, stack, val=sf, extra='match'))
+                ge = Event('guard', n, fr.fn, ctx, stack, val=sf, extra='match')
+                ge.pins = self.len_paths(fr, n['e'], ctx, stack)
+                self.events.append(ge)
             r = join(r, self.ev(fr, a['b'], c1, stack))
         return r if r is not None else EMPTY
 
     def ev_For(self, fr, n, ctx, stack):
         it = self.ev(fr, n['it'], ctx, stack)
         c1 = ctx + (('loop', flat(it), n, n['it']),)
+        it = elem(it)
         self.bind(fr, n['p'], it)
         self.ev(fr, n['b'], c1, stack)
         k = len(self.events)
@@ -606,32 +710,43 @@ class Flow:
             cl = self.closure_of(fr, a)
             if cl is not None:
                 np_ = len(cl['p'])
-                elem = src if src is not None else others
+                el = elem(src) if src is not None else others
                 if np_ == 1:
-                    cargs = [join_keep(elem, EMPTY) if elem is not None else EMPTY]
+                    cargs = [el if el is not None else EMPTY]
                 elif np_ == 2 and name in ('fold', 'try_fold', 'scan'):
-                    cargs = [others, elem]
-                elif isinstance(elem, T) and len(elem) == np_:
-                    cargs = list(elem)
+                    cargs = [others, el]
+                elif isinstance(el, T) and len(el) == np_:
+                    cargs = list(el)
                 else:
-                    cargs = [flat(elem) | others for _ in range(np_)]
-                cctx = ctx + (('loop' if recv is not None else 'closure', flat(elem) if elem is not None else EMPTY, a, recv_node),)
+                    cargs = [flat(el) | others for _ in range(np_)]
+                cctx = ctx + (('loop' if recv is not None else 'closure', flat(src) if src is not None else EMPTY, a, recv_node),)
                 r1 = self.call_closure(fr, cl, cargs, cctx, stack)
                 if name in ('fold', 'try_fold', 'scan', 'for_each', 'map', 'flat_map', 'filter_map', 'and_then', 'map_or', 'map_or_else', 'unwrap_or_else'):
                     # loop-carried second pass for accumulators
                     if name in ('fold', 'try_fold', 'scan'):
-                        r1 = join(r1, self.call_closure(fr, cl, [flat(r1) | others, elem], cctx, stack))
+                        r1 = join(r1, self.call_closure(fr, cl, [flat(r1) | others, el], cctx, stack))
                 argvals[i] = r1
                 clos_results = clos_results | flat(r1)
         ev = Event('call', n, fr.fn, ctx, stack, callee=c, decl=d, recv=recv, args=argvals)
         self.events.append(ev)
+        if recv_node is None and name in ('new', 'with_capacity') and c and ('Vec' in c):
+            return C((EMPTY,))   # capacity is not data
+        if recv_node is not None and name == 'push' and len(plain) == 1:
+            rid = self.root_local(recv_node)
+            if rid is not None and recv_node.get('k') == 'Local' and isinstance(fr.env.get(rid), C):
+                fr.env[rid] = C((join(fr.env[rid][0] if fr.env[rid][0] else None, plain[0]),))
+                return EMPTY
         # inlining
         result = None
         if self.inline is not None and len(stack) < self.maxdepth and c is not None:
-            target = self.inline(c, d, ev)
-            if target is not None and target.d not in [s for s in stack] and target.d != self.root.d:
-                pv = ([recv] if recv is not None else []) + argvals
-                result = self.run_fn(target, pv, ctx, stack + (target.d,))
+            targets = self.inline(c, d, ev)
+            if targets is not None and not isinstance(targets, (list, tuple)):
+                targets = [targets]
+            for target in targets or []:
+                if target.d not in stack and target.d != self.root.d:
+                    pv = ([recv] if recv is not None else []) + argvals
+                    r1 = self.run_fn(target, pv, ctx, stack + (target.d,))
+                    result = r1 if result is None else join(result, r1)
         catom = frozenset(['c:' + qual(c)]) if c else EMPTY
         # mutation through &mut receiver / &mut args
         if recv_node is not None:
@@ -656,6 +771,8 @@ class Flow:
             if name == 'chain' and plain:
                 return flat(recv) | others | catom
             return join_keep(base, EMPTY) if not others else join_keep(base, others)
+        if recv is not None and name in ELEM_METHODS and not clos_results:
+            return flat(elem(recv)) | others | catom
         if recv is not None and name in ZIPS and len(plain) == 1:
             return T([recv, plain[0]])
         if recv is not None and name == 'enumerate':
@@ -664,19 +781,20 @@ class Flow:
             # result of the closure (plus the receiver's control dependence)
             for i, a in enumerate(arg_nodes):
                 if self.closure_of(fr, a) is not None and isinstance(argvals[i], (T, S)) and name == 'map':
-                    return join_keep(argvals[i], catom)
+                    return C((argvals[i],))
             return allargs | catom
         return allargs | catom
 
 
 class _Frame:
-    __slots__ = ('fn', 'env', 'clos', 'rets')
+    __slots__ = ('fn', 'env', 'clos', 'rets', 'lens')
 
     def __init__(self, fn, env, clos):
         self.fn = fn
         self.env = env
         self.clos = clos
         self.rets = []
+        self.lens = {}
 
 
 # ---------------------------------------------------------------------- query helpers
@@ -692,7 +810,7 @@ def has_field(v, field):
         if x.startswith('F:') and x.endswith('.' + field):
             return True
         if x.startswith('p:') and ('.' + field) in x:
-            seg = x[2:].split('.')
+            seg = x[2:].replace('[]', '').split('.')
             if field in seg[1:]:
                 return True
     return False
@@ -708,7 +826,7 @@ def has_call(v, name):
 def has_param(v, name):
     for x in flat(v):
         if x.startswith('p:'):
-            r = x[2:].split('.')[0]
+            r = x[2:].split('.')[0].replace('[]', '')
             if r == name:
                 return True
     return False
